@@ -50,12 +50,36 @@ def run_demo(tmp, demo):
     return rc, (out + err)[-300:]
 
 
+def harvest(name, prop, out):
+    """Keep the smallest reduced replay as a committed regression, if it passes on the clean tree."""
+    import re
+
+    paths = re.findall(r"VIOLATION property=\S+ replay=(\S+)", out)
+    paths = [p for p in paths if os.path.exists(os.path.join(HERE, p))]
+    if not paths:
+        return
+    best = min(paths, key=lambda p: os.path.getsize(os.path.join(HERE, p)))
+    body = json.load(open(os.path.join(HERE, best)))
+    if len(json.dumps(body["case"])) > 20000:
+        return
+    body["regression_of"] = "seeded change " + name
+    dst = os.path.join(HERE, "regressions", prop)
+    os.makedirs(dst, exist_ok=True)
+    out_path = os.path.join(dst, "seed-%s.json" % name)
+    json.dump(body, open(out_path, "w"), indent=1, sort_keys=True)
+    rc, o, e = sh([os.path.join(HERE, "check"), prop, "--replay", out_path])
+    if rc != 0:  # must be quiet on the real tree
+        os.remove(out_path)
+        print("    (replay not kept: it does not pass on /repo)")
+
+
 def main():
     ap = argparse.ArgumentParser()
     ap.add_argument("--only")
     ap.add_argument("--all-checks", action="store_true")
     ap.add_argument("--confirm-only", action="store_true")
     ap.add_argument("--scale", default="1")
+    ap.add_argument("--harvest", action="store_true", help="keep the smallest replay of each caught check as regressions/<prop>/seed-<name>.json")
     a = ap.parse_args()
     names = sorted(d for d in os.listdir(SEEDED) if os.path.isfile(os.path.join(SEEDED, d, "patch.diff")))
     if a.only:
@@ -83,6 +107,8 @@ def main():
                 t0 = time.time()
                 rc, out, err = sh([os.path.join(HERE, "check"), p], env=env)
                 line = [l for l in out.splitlines() if l.startswith("  clause=")]
+                if a.harvest and rc == 1:
+                    harvest(name, p, out)
                 verdict = {1: "CAUGHT", 0: "MISSED", 2: "ERR2"}.get(rc, "rc%d" % rc)
                 if rc != 1 and p in meta.get("checks", [meta["property"]]):
                     missed += 1
